@@ -1,5 +1,6 @@
 CONSTANTS
  MaxTok = 6
+ Alphabet = {"M", "S", "K", "a", "(", ")", "U", "X", "O"}
 INIT MCInit
 NEXT MCNext
 INVARIANT PartsWellFormed
